@@ -309,7 +309,7 @@ func ruleR09_5(w *World, r *Report) {
 		return
 	}
 	d := deepOfDepth(fn, 1)
-	dpaths, ok := d.paths(dins{d.root, begin.(ssa.Instruction)}, txAbs)
+	dpaths, ok := d.paths(d.find(begin.(ssa.Instruction)), txAbs)
 	r.Check(ok && allLitPathsHaveLin(dpaths, "+LEN-N == 0"), "ExecuteRemoteTransactionWithCtx/count check", u.Pos(begin.Pos()), "len(unit) == announced count before BeginTransaction",
 		fmt.Sprintf("the transaction begins under %v; expected a preceding check len(transaction) == announced NumOfOps (an incomplete unit must be refused as a whole)", linsOf(dpaths)))
 	// every multi-operation unit goes through that check: the apply loop is reached either with
